@@ -250,8 +250,13 @@ func classify(rtn string, e enc.Encoder, domain string, resp commands.Response, 
 	return "", ""
 }
 
-func TestResponsesSurviveTheWire(t *testing.T) {
-	rapid.Check(t, func(rt *rapid.T) {
+func TestResponsesSurviveTheWire(t *testing.T) { rapid.Check(t, propResponseSurvivesTheWire) }
+
+// FuzzResponsesSurviveTheWire drives the same property from coverage-guided byte strings (thorough tier).
+func FuzzResponsesSurviveTheWire(f *testing.F) { f.Fuzz(rapid.MakeFuzz(propResponseSurvivesTheWire)) }
+
+func propResponseSurvivesTheWire(rt *rapid.T) {
+	{
 		r := rtypes[rapid.IntRange(0, len(rtypes)-1).Draw(rt, "rtype")]
 		e := downCodecs[rapid.IntRange(0, len(downCodecs)-1).Draw(rt, "codec")]
 		domain := []string{"example.org", "a.b", "t.Example.COM", strings.Repeat("d", 40) + ".net", strings.Repeat("x", 63) + "." + strings.Repeat("y", 50) + ".org"}[rapid.IntRange(0, 4).Draw(rt, "domain")]
@@ -272,7 +277,7 @@ func TestResponsesSurviveTheWire(t *testing.T) {
 			vlib.Rec.Violation(map[string]interface{}{"property": "C10", "signature": sig, "problem": msg, "response": fmt.Sprintf("%+v", resp)})
 			rt.Fatalf("C10 [%s] %s", sig, msg)
 		}
-	})
+	}
 }
 
 // TestMustBeSelectable keeps the operational definition from becoming vacuous: these combinations must pass the
